@@ -6,6 +6,8 @@ EXPLANATION = ("Bounded runtime contracts at the public interface (ConfigLoader.
                "sample size, common rescaling of the amplitudes, simultaneous data sets and Gaussian constraints.  Bounded evidence, not a proof.")
 ASSUMPTIONS = ["the per-event densities amp(data) returned by the amplitude model are taken as given (amplitude-level properties are separate)"]
 
+EXPLANATION += (' cfit / cfit_extended value formulas proved at lengths 1, 2; ModelCfitExtended and ModelCachedInt gradient paths return the documented value.')
+
 from vt.contracts import iface_nll  # noqa: F401,E402
 from vt.contracts import derivs  # noqa: F401,E402
 from vt.contracts import autodiff_helpers  # noqa: F401,E402
